@@ -398,7 +398,7 @@ func sortedU(xs []uint32) []uint32 {
 
 func layerConc(h *harness.H) {
 	h.AddRule(fmt.Sprintf("conc: one case = %d goroutines x 12 (quick) transactions each on one table (%d private keys per goroutine, %d shared keys), PRNG-chosen writes, Gosched points, in-tx and after-tx 3-way queries on private keys, quiescent index==scan sweep; distinct = distinct (seed,case) program with >=1 commit; run with GOMAXPROCS cycling 1,2,4,16", concG, concPrivate, concShared))
-	n := h.N(150, 6000)
+	n := h.N(150, 4000)
 	nTx := 12
 	if h.Thorough() {
 		nTx = 30
